@@ -5,10 +5,29 @@
 use crate::ir::*;
 use crate::refsem::{default_natives, observe, run_reference, Ob};
 
+/// host configuration of a run (plain data; the harness turns it into the real VM setup)
+#[derive(Clone, Debug, PartialEq, serde::Serialize, serde::Deserialize)]
+pub struct CfgLite {
+    pub max_instr: u64,
+    pub mem_limit: usize,
+    pub stack: usize,
+    pub call_stack: usize,
+}
+
+impl Default for CfgLite {
+    fn default() -> Self {
+        CfgLite { max_instr: 100_000, mem_limit: 400 * 1024, stack: 256, call_stack: 256 }
+    }
+}
+
 pub trait Family: Sync + Send {
     fn name(&self) -> &'static str;
     fn len(&self) -> u64;
     fn case(&self, idx: u64) -> Module;
+    /// non-default host configuration for this case
+    fn cfg(&self, _idx: u64) -> Option<CfgLite> {
+        None
+    }
 }
 
 // ------------------------------------------------------------------------------------------------
